@@ -123,10 +123,25 @@ package serf
 //@   ensures one_reap_event [C15,C16]: s.config.EventCh != nil ==>
 //@       sentN(s.config.EventCh) == old(sentN(s.config.EventCh))+1 && lastEventIs(s, old(sentN(s.config.EventCh)), EventMemberReap, m.Name)
 //@   ensures no_other_events [C15,C16]: forall(func(ch chan<- Event) bool { return ch != s.config.EventCh || ch == nil ==> sentN(ch) == old(sentN(ch)) })
+//@   ensures earlier_events_kept [C16]: forall2(func(ch chan<- Event, i int) bool { return 0 <= i && i < old(sentN(ch)) ==> sentAt(ch, i) == old(sentAt(ch, i)) }) &&
+//@       allocatedElemsKept([]Member(nil))
 //@ end
 
+// the conjuncts of wfSerf, proved one by one (smaller queries)
+//@ pure func listA(s *Serf, l []*memberState, st MemberStatus) bool {
+//@   return forall(func(i int) bool { return 0 <= i && i < len(l) ==> s.members[l[i].Name] == l[i] && l[i].Status == st }) }
+//@ pure func listB(s *Serf, l []*memberState, st MemberStatus) bool {
+//@   return forall(func(k string) bool { m, ok := s.members[k]; return ok && m.Status == st ==> inList(l, m) }) }
+
 //@ func (s *Serf) handlePrune(member *memberState)
-//@   requires wf: wfSerf(s) && member != nil && s.members[member.Name] == member
+//@   requires wf_members: wfMembers(s) && member != nil && s.members[member.Name] == member
+//@   requires wf_failed_list: wfList(s.failedMembers)
+//@   requires wf_failed_a: listA(s, s.failedMembers, StatusFailed)
+//@   requires wf_failed_b: listB(s, s.failedMembers, StatusFailed)
+//@   requires wf_left_list: wfList(s.leftMembers)
+//@   requires wf_left_a: listA(s, s.leftMembers, StatusLeft)
+//@   requires wf_left_b: listB(s, s.leftMembers, StatusLeft)
+//@   requires wf_disjoint: disjoint(s.failedMembers, s.leftMembers)
 //@   requires status: member.Status == StatusLeaving || member.Status == StatusLeft
 //@   let _, present := s.members[member.Name]
 //@   ensures erased [C15]: !present
@@ -134,14 +149,73 @@ package serf
 //@       return k != member.Name ==> ok == old(ook) && (ok ==> o == old(oo)) })
 //@   ensures wf_members [C15]: wfMembers(s)
 //@   ensures wf_failed_list [C15]: wfList(s.failedMembers)
-//@   ensures wf_failed_a [C15]: forall(func(i int) bool { l := s.failedMembers; return 0 <= i && i < len(l) ==> s.members[l[i].Name] == l[i] && l[i].Status == StatusFailed })
-//@   ensures wf_failed_b [C15]: forall(func(k string) bool { m, ok := s.members[k]; return ok && m.Status == StatusFailed ==> inList(s.failedMembers, m) })
+//@   ensures wf_failed_a [C15]: listA(s, s.failedMembers, StatusFailed)
+//@   ensures wf_failed_b [C15]: listB(s, s.failedMembers, StatusFailed)
 //@   ensures wf_left_list [C15]: wfList(s.leftMembers)
-//@   ensures wf_left_a [C15]: forall(func(i int) bool { l := s.leftMembers; return 0 <= i && i < len(l) ==> s.members[l[i].Name] == l[i] && l[i].Status == StatusLeft })
-//@   ensures wf_left_b [C15]: forall(func(k string) bool { m, ok := s.members[k]; return ok && m.Status == StatusLeft ==> inList(s.leftMembers, m) })
+//@   ensures wf_left_a [C15]: listA(s, s.leftMembers, StatusLeft)
+//@   ensures wf_left_b [C15]: listB(s, s.leftMembers, StatusLeft)
 //@   ensures wf_disjoint [C15]: disjoint(s.failedMembers, s.leftMembers)
 //@   ensures frame_lists [C15]: elemsUnchangedExcept(old(s.leftMembers)) && sameSlice(s.failedMembers, old(s.failedMembers)) &&
 //@       sameArray(s.leftMembers, old(s.leftMembers))
 //@   ensures one_reap_event [C15,C16]: s.config.EventCh != nil ==>
 //@       sentN(s.config.EventCh) == old(sentN(s.config.EventCh))+1 && lastEventIs(s, old(sentN(s.config.EventCh)), EventMemberReap, member.Name)
+//@   ensures earlier_events_kept [C16]: forall2(func(ch chan<- Event, i int) bool { return 0 <= i && i < old(sentN(ch)) ==> sentAt(ch, i) == old(sentAt(ch, i)) }) &&
+//@       allocatedElemsKept([]Member(nil))
+//@ end
+
+//@ pure func sameMemberState(s *Serf, k string) bool { return true }
+
+//@ func (s *Serf) handleNodeLeaveIntent(leaveMsg *messageLeave) (rebroadcast bool)
+//@   requires wf: wfSerf(s) && leaveMsg != nil
+//@   let m, known := s.members[leaveMsg.Node]
+//@   let it, buffered := s.recentIntents[leaveMsg.Node]
+//@   let newer := leaveMsg.LTime > old(m.statusLTime)
+//@   let self := leaveMsg.Node == s.config.NodeName && old(s.state) == SerfAlive
+//@   let om := old(m)
+//@   let ost := old(m.Status)
+//@   let evN := old(sentN(s.config.EventCh))
+//@   # ---- C02 / C04: an intent that is not newer never changes anything and is not re-broadcast
+//@   ensures stale_ignored [C02,C04]: old(known) && !newer ==>
+//@       !rebroadcast && known && m == om && m.Status == ost && m.statusLTime == old(m.statusLTime)
+//@   # ---- C03: a running member refutes newer claims about itself and stays alive
+//@   ensures self_refutes [C03]: old(known) && newer && self ==>
+//@       !rebroadcast && known && m == om && m.Status == ost && m.statusLTime == old(m.statusLTime) &&
+//@       spawnN() == old(spawnN())+1 && spawnIs(old(spawnN()), "Serf.broadcastJoin") &&
+//@       (uint64(leaveMsg.LTime) != maxU64() ==> spawnArg(old(spawnN())) > uint64(leaveMsg.LTime))
+//@   ensures self_stays_alive [C03]: old(known) && self && ost == StatusAlive ==> known && m == om && m.Status == StatusAlive
+//@   ensures no_spurious_refute [C03]: !(old(known) && newer && self) ==> spawnN() == old(spawnN())
+//@   # ---- C02: transition table for a newer leave intent about somebody else (or about us once leaving)
+//@   ensures newer_alive [C02]: old(known) && newer && !self && ost == StatusAlive ==> rebroadcast &&
+//@       (!leaveMsg.Prune ==> known && m == om && m.Status == StatusLeaving && m.statusLTime == leaveMsg.LTime) && (leaveMsg.Prune ==> !known)
+//@   ensures newer_failed [C02,C15]: old(known) && newer && !self && ost == StatusFailed ==> rebroadcast &&
+//@       (!leaveMsg.Prune ==> known && m == om && m.Status == StatusLeft && m.statusLTime == leaveMsg.LTime) && (leaveMsg.Prune ==> !known)
+//@   let ev, evok := sentAt(s.config.EventCh, evN).(MemberEvent)
+//@   ensures newer_failed_event_n [C15,C16]: old(known) && newer && !self && ost == StatusFailed && s.config.EventCh != nil ==>
+//@       sentN(s.config.EventCh) >= evN+1
+//@   ensures newer_failed_event_ty [C15,C16]: old(known) && newer && !self && ost == StatusFailed && s.config.EventCh != nil ==>
+//@       evok && ev.Type == EventMemberLeave && len(ev.Members) == 1
+//@   ensures newer_failed_event_who [C15,C16]: old(known) && newer && !self && ost == StatusFailed && s.config.EventCh != nil ==>
+//@       ev.Members[0].Name == leaveMsg.Node
+//@   ensures newer_leaving_left [C02]: old(known) && newer && !self && (ost == StatusLeaving || ost == StatusLeft) ==> rebroadcast &&
+//@       (!leaveMsg.Prune ==> known && m == om && m.Status == ost && m.statusLTime == leaveMsg.LTime) && (leaveMsg.Prune ==> !known)
+//@   ensures newer_none [C02]: old(known) && newer && !self && ost == StatusNone ==> !rebroadcast && known && m == om && m.Status == ost
+//@   # ---- unknown member: the intent is buffered iff newer than the buffered one (C02, C04)
+//@   ensures unknown_buffered [C02,C04]: !old(known) ==> !known &&
+//@       rebroadcast == (!old(buffered) || leaveMsg.LTime > old(it.LTime)) &&
+//@       (rebroadcast ==> buffered && it.LTime == leaveMsg.LTime && it.Type == messageLeaveType) &&
+//@       (!rebroadcast ==> buffered && it == old(it))
+//@   # ---- frame: nobody else is touched; status times only grow
+//@   ensures others_unchanged [C02,C15]: forall(func(k string) bool { o, ok := s.members[k]; oo, ook := old(s.members)[k]
+//@       return k != leaveMsg.Node ==> ok == old(ook) && (ok ==> o == old(oo) && o.Status == old(o.Status) && o.statusLTime == old(o.statusLTime)) })
+//@   ensures ltime_monotone [C02]: forall(func(k string) bool { o, ok := s.members[k]
+//@       return ok && old(s.members[k]) == o ==> o.statusLTime >= old(o.statusLTime) })
+//@   # ---- C15: bookkeeping invariant preserved
+//@   ensures wf_members [C15]: wfMembers(s)
+//@   ensures wf_failed_list [C15]: wfList(s.failedMembers)
+//@   ensures wf_failed_a [C15]: listA(s, s.failedMembers, StatusFailed)
+//@   ensures wf_failed_b [C15]: listB(s, s.failedMembers, StatusFailed)
+//@   ensures wf_left_list [C15]: wfList(s.leftMembers)
+//@   ensures wf_left_a [C15]: listA(s, s.leftMembers, StatusLeft)
+//@   ensures wf_left_b [C15]: listB(s, s.leftMembers, StatusLeft)
+//@   ensures wf_disjoint [C15]: disjoint(s.failedMembers, s.leftMembers)
 //@ end
